@@ -442,7 +442,7 @@ def check_thread_safe_vector(chk, lib):
     # V5: every slot index the pool computes itself is inside the pool (c08_range.py)
     from . import c08_range
     n5 = c08_range.rule_V5(chk, [d_ for fns_ in ms.values() for d_ in fns_])
-    chk.floor("V5", n5, 4)
+    chk.floor("V5", n5, 2)
 
 
 # ------------------------------------------------------------------------------------------
